@@ -421,6 +421,9 @@ def _check_object(out, case):
   if kind == "nx_action_bundle" and rf.get("$form") == "int" and rf.get("slaves"):
     out.label("bundle:integer-slaves-shorthand")
     eq_exempt = True
+  if kind == "ofp_stats_reply" and rf.get("$form") == "tuple-body":
+    out.label("stats-reply:tuple-body")           # decodes to a list: equality not demanded, bytes and lengths are
+    eq_exempt = True
   shorthand = False
   if kind == "nx_reg_load" and rf.get("$form") == "entry":
     out.label("reg_load:entry-instance-shorthand")     # decodes to (class, integer value): equality not demanded
@@ -455,6 +458,13 @@ def _check_object(out, case):
     out.fail("pack-type", "pack() of %s returned %s" % (kind, type(b).__name__), cls=kind)
     packed_ok = False
   len_ok, ln = _try(out, "len", lambda: len(obj))
+  if kind == "ofp_stats_reply" and rf.get("$form") == "tuple-body" and packed_ok and len_ok:
+    # pack() accepts any list-like body; the length must be taken from the same notion of "list-like"
+    hl = struct.unpack_from("!H", b, 2)[0] if len(b) >= 4 else -1
+    if ln != len(b) or hl != len(b):
+      out.fail("list-like-body-length", "ofp_stats_reply with a tuple body: pack() wrote %d octets, len() is %d, header length %d" % (
+          len(b), ln, hl), cls=kind)
+      return
   if not packed_ok:
     # The class cannot be encoded (recorded above).  So that the search goes on behind this, the decoding
     # clauses are judged on the bytes the specification prescribes for the object.
@@ -665,6 +675,264 @@ def _check_change(out, case):
                                                          _hexdiff(b, exp)), cls=kind, field=fields[0] if fields else "?")
 
 
+# --------------------------------------------------------------------------- encode, mutate in place, re-encode
+_SCALAR = ("u8", "u16", "u32", "u64", "mac", "str", "bytes")
+_MATCH_FIELDS = [(n, "u%d" % b) for n, b in R.MATCH_INT_FIELDS] + [("dl_src", "mac"), ("dl_dst", "mac"), ("nw_src", "addr"),
+                                                                  ("nw_dst", "addr")]
+_MUT_SKIP = None
+
+
+def _mut_skip():
+  global _MUT_SKIP
+  if _MUT_SKIP is None:
+    _MUT_SKIP = set(_GRID_SKIP) | {
+      ("ofp_packet_out", "buffer_id"), ("ofp_packet_out", "data"),            # constructor contract ties the two
+      ("ofp_packet_in", "total_len"), ("ofp_packet_in", "data"), ("nxt_packet_in", "total_len"), ("nxt_packet_in", "data"),
+      ("ofp_action_output", "port"),          # pack() zeroes max_len for a non-controller port: documented, not reversible
+    }
+  return _MUT_SKIP
+
+
+def _mut_candidates(kind, f, path=None, acc=None):
+  """Every place of a fragment that can be changed in place on the built object:
+  ("set", path, kind of the object at path, field, type) and ("nxm", path of the nx_match, index of the entry)."""
+  path = [] if path is None else path
+  acc = [] if acc is None else acc
+  if kind == "ofp_match":
+    for n, t in _MATCH_FIELDS:
+      acc.append(("set", path, "ofp_match", n, t))
+    return acc
+  if kind == "nx_match":
+    for i, e in enumerate(f.get("entries", [])):
+      acc.append(("nxm", path, i))
+    return acc
+  if kind == "nxm_entry":
+    return acc
+  try:
+    lay = R.layout_of(kind)
+  except R.RefError:
+    return acc
+  for ent in lay:
+    name, typ = ent[0], ent[1]
+    if name is None or name.startswith("$"):
+      continue
+    v = f.get(name)
+    if typ in _SCALAR:
+      if (kind, name) not in _mut_skip():
+        acc.append(("set", path, kind, name, typ if typ != "str" else ("str", ent[2])))
+    elif typ == "match":
+      _mut_candidates("ofp_match", v or {}, path + [name], acc)
+    elif typ == "struct":
+      _mut_candidates(ent[2], v or {}, path + [name], acc)
+    elif typ in ("actions", "props") and isinstance(v, list):
+      for i, el in enumerate(v):
+        if isinstance(el, dict) and "k" in el:
+          _mut_candidates(el["k"], el["f"], path + [name, i], acc)
+    elif typ == "list" and isinstance(v, list):
+      for i, el in enumerate(v):
+        if isinstance(el, dict) and "$rep" not in el:
+          _mut_candidates(ent[2], el, path + [name, i], acc)
+    elif typ == "body":
+      if isinstance(v, dict) and "k" in v:
+        _mut_candidates(v["k"], v["f"], path + [name], acc)
+      elif isinstance(v, list):
+        for i, el in enumerate(v):
+          if isinstance(el, dict) and "k" in el:
+            _mut_candidates(el["k"], el["f"], path + [name, i], acc)
+    elif typ == "nx_match" and isinstance(v, list):
+      for i, e in enumerate(v):
+        acc.append(("nxm", path + [name], i))
+  return acc
+
+
+def _mut_value(kind, name, typ, seed):
+  if isinstance(typ, tuple):                      # ("str", width)
+    return ("m%d" % (seed % 100000))[:typ[1]]
+  if typ == "mac":
+    return bytes(((seed >> (8 * i)) + i) & 0xff for i in range(6))
+  if typ == "bytes":
+    return bytes((seed + 3 * i) & 0xff for i in range(seed % 13))
+  if typ == "addr":
+    return [(seed * 2654435761) & 0xffffffff, 1 + seed % 32]
+  bits = _GRID_RANGE.get((kind, name), int(typ[1:]))
+  mx = (1 << bits) - 1
+  return [seed & mx, 0, mx, 1 << (bits - 1), mx - 1, 1][seed % 6]
+
+
+def _mut_nxm(entry, seed):
+  """a new (value, mask) for an existing NXM entry and the way it is written, respecting the constructor contract"""
+  name = entry["field"]
+  n, maskable = R.NXM_FIELDS[name][2], R.NXM_FIELDS[name][3]
+  old_v, old_m = R.expand_bytes(entry["value"]), entry.get("mask")
+  rnd = bytes(((seed >> (i % 7)) + 37 * i + seed) & 0xff for i in range(n))
+  rnd2 = bytes(((seed >> (i % 5)) * 3 + 11 * i) & 0xff for i in range(n))
+  hows = ["attr", "entry"] + (["with_mask", "mask", "entry-mask"] if maskable else [])
+  how = hows[seed % len(hows)]
+  if how in ("attr", "entry"):
+    v = rnd if old_m is None else bytes(a & b for a, b in zip(rnd, old_m))
+    return how, v, old_m
+  if name == "NXM_NX_TCP_FLAGS":
+    rnd2 = bytes([rnd2[0] & 0x0f, rnd2[1]])
+  if how == "with_mask":
+    return how, bytes(a & b for a, b in zip(rnd, rnd2)), rnd2
+  return how, old_v, bytes(a | b for a, b in zip(old_v, rnd2))
+
+
+def _derive_mutation(frag, sel, seed):
+  """pure: pick one candidate of the fragment by `sel` and a new value by `seed` -> the "mutate" record (or None)"""
+  cands = _mut_candidates(frag["k"], frag["f"])
+  if not cands:
+    return None
+  c = cands[sel % len(cands)]
+  if c[0] == "set":
+    _, path, tkind, name, typ = c
+    return {"path": list(path), "kind": tkind, "field": name, "value": _mut_value(tkind, name, typ, seed)}
+  _, path, idx = c
+  cur = frag["f"]
+  entries = cur["entries"] if frag["k"] == "nx_match" and not path else cur[path[0]]
+  how, v, m = _mut_nxm(G._norm_nxm(entries[idx]), seed)
+  return {"path": list(path), "kind": "nx_match", "index": idx, "how": how, "value": v, "mask": m}
+
+
+def _frag_navigate(frag, path, create=True):
+  """the field dict (or entry list) inside the fragment that `path` points at"""
+  cur = frag["f"]
+  i = 0
+  while i < len(path):
+    name = path[i]
+    nxt = cur.get(name)
+    if nxt is None:
+      nxt = cur[name] = {}
+    if isinstance(nxt, list):
+      if i + 1 < len(path) and isinstance(path[i + 1], int):
+        el = nxt[path[i + 1]]
+        cur = el["f"] if "k" in el else el
+        i += 2
+        continue
+      return nxt                       # the nx entry list itself
+    cur = nxt["f"] if "k" in nxt else nxt
+    i += 1
+  return cur
+
+
+def _obj_navigate(obj, path):
+  for p in path:
+    obj = obj[p] if isinstance(p, int) else getattr(obj, p)
+  return obj
+
+
+def _apply_set(tobj, tkind, name, value):
+  of, A = G._pox()
+  if tkind == "ofp_match":
+    if name in ("dl_src", "dl_dst"):
+      value = A.EthAddr(bytes(value))
+    elif name in ("nw_src", "nw_dst"):
+      value = (A.IPAddr(value[0]), value[1])
+    setattr(tobj, name, value)
+    return
+  donor_f = dict(_min_frag(tkind))
+  donor_f.pop("xid", None) if not R.is_message(tkind) else None
+  donor_f[name] = value
+  donor = G.build({"k": tkind, "f": donor_f})
+  if tkind == "nx_flow_mod_table_id" and name == "set":
+    tobj.enable = donor.enable
+  elif name == "ofs_nbits":
+    tobj.offset, tobj.nbits = donor.offset, donor.nbits
+  else:
+    setattr(tobj, name, getattr(donor, name))
+
+
+def _check_mutate(out, case):
+  """Encode, mutate in place, re-encode.  POX objects are built up and edited by attribute assignment, also on
+  the objects nested inside a message (msg.match.in_port = .., msg.actions[0].port = .., m.of_ip_src = .. a second
+  time, entry.value = ..).  After a first pack() and len(), one field is changed in place; the second pack() must
+  equal the pack() of an object freshly built with the changed value, and len() / the header length must agree."""
+  from .. import case as casemod
+  frag, mut = case["frag"], case["mutate"]
+  kind = frag["k"]
+  mode = case.get("mode", "plain")
+  out.label("kind:" + kind, "cat:mutate", "mutate-target:" + mut["kind"])
+  if _category(kind) in ("nxm", "nx-message", "nx-action") and _nx is None:
+    return
+  frag2 = casemod.from_jsonable(casemod.to_jsonable(frag))      # a copy without shared sub-objects, as a replay file has it
+  try:
+    if mut["kind"] == "nx_match":
+      lst = _frag_navigate(frag2, mut["path"]) if mut["path"] else frag2["f"]["entries"]
+      if isinstance(lst, dict):
+        lst = lst["entries"]
+      old = G._norm_nxm(lst[mut["index"]])
+      lst[mut["index"]] = {"field": old["field"], "value": mut["value"], "mask": mut["mask"]}
+      what = "%s %s" % (mut["how"], old["field"])
+    else:
+      _frag_navigate(frag2, mut["path"])[mut["field"]] = mut["value"]
+      what = "%s.%s" % (mut["kind"], mut["field"])
+    G.wire(frag2)
+  except (R.RefError, ValueError, KeyError, IndexError) as e:
+    raise HarnessError("mutate case outside the reference domain: %r for %s" % (e, _short(case, 600)))
+  obj = _guard(out, "construct", lambda: G.build(frag))
+  b1 = _guard(out, "pack", lambda: _pack_of(kind, obj, mode))
+  _guard(out, "len", lambda: len(obj))
+  _try(out, "eq", lambda: obj == obj)
+  fresh = _guard(out, "construct", lambda: G.build(frag2))
+  want = _guard(out, "pack", lambda: _pack_of(kind, fresh, mode))
+  out.nontrivial = want != b1
+
+  def change():
+    t = _obj_navigate(obj, mut["path"])
+    if mut["kind"] != "nx_match":
+      return _apply_set(t, mut["kind"], mut["field"], mut["value"])
+    f = old["field"]
+    v = G.nxm_value_to_py(f, mut["value"])
+    m = None if mut["mask"] is None else G.nxm_value_to_py(f, mut["mask"])
+    how = mut["how"]
+    if how == "attr":
+      setattr(t, f, v)
+    elif how == "with_mask":
+      setattr(t, f + "_with_mask", (v, m))
+    elif how == "mask":
+      setattr(t, f + "_mask", m)
+    elif how == "entry":
+      t[mut["index"]].value = v
+    elif how == "entry-mask":
+      t[mut["index"]].mask = m
+    else:
+      raise HarnessError("mutation %r" % (how,))
+  _guard(out, "mutate", change)
+  ok, b2 = _try(out, "pack", lambda: _pack_of(kind, obj, mode))
+  if not ok:
+    return
+  ok, ln = _try(out, "len", lambda: len(obj))
+  problems = []
+  if b2 != want:
+    problems.append("second pack() differs from the pack() of a freshly built object: %s" % _hexdiff(b2, want))
+  if ok and ln != len(b2):
+    problems.append("len() is %d, pack() returned %d octets" % (ln, len(b2)))
+  if R.is_message(kind) and len(b2) >= 4 and struct.unpack_from("!H", b2, 2)[0] != len(b2):
+    problems.append("header length %d for %d octets" % (struct.unpack_from("!H", b2, 2)[0], len(b2)))
+  if problems:
+    out.fail("encode-mutate-reencode", "%s: after pack(), len() and then changing %s in place (path %s): %s" % (
+        kind, what, mut["path"], "; ".join(problems)), cls=kind, target=mut["kind"],
+        field=mut.get("field", mut.get("how")), via=str(mut["path"][0]) if mut["path"] else "-")
+
+
+def _check_collect_raw(out, case):
+  """ofp_vendor_generic documents a switch: with _collect_raw set, unpack() also keeps the raw message in .raw"""
+  frag = case["frag"]
+  out.label("kind:" + frag["k"], "cat:collect-raw")
+  out.nontrivial = True
+  obj = _guard(out, "construct", lambda: G.build(frag))
+  b = _guard(out, "pack", obj.pack)
+  tgt = _of.ofp_vendor_generic()
+  tgt._collect_raw = True
+  pre = case.get("pre", b"") or b""
+  ok, r = _try(out, "unpack-collect-raw", lambda: tgt.unpack(pre + b + b"\xff", len(pre)))
+  if not ok:
+    return
+  if r != (len(pre) + len(b), len(b)) or getattr(tgt, "raw", None) != b or not (tgt == obj):
+    out.fail("collect-raw", "ofp_vendor_generic with _collect_raw: unpack() returned %r, .raw is %s" % (
+        r, _short(getattr(tgt, "raw", None))), cls="ofp_vendor_generic")
+
+
 def _unpack_into(kind, cat, obj, buf, off, n, mode):
   """The public instance unpack(): decode n octets at buf[off:] INTO an existing object.  -> consumed"""
   if cat in ("message", "nx-message"):
@@ -868,6 +1136,10 @@ def run_case(case):
       _check_constant(out, case)
     elif "dirty" in case:
       _check_pair(out, case)
+    elif "mutate" in case:
+      _check_mutate(out, case)
+    elif case.get("collect_raw"):
+      _check_collect_raw(out, case)
     elif "then" in case:
       _check_change(out, case)
     else:
@@ -1312,13 +1584,101 @@ def enum_pairs(tier):
           yield {"dirty": fa, "frag": fb, "pre": b"", "mode": "flow_mod"}
 
 
+def enum_mutate(tier):
+  """every in-place change of every scalar field of every kind, top level and nested, and every way of changing an
+  NXM entry that is already in a match"""
+  M = lambda frag, mut, **kw: dict({"frag": frag, "mutate": mut}, **kw)
+  seen = set()
+  # 1. top-level scalar fields of every kind (two values each)
+  for kind in _grid_kinds() + ["ofp_match", "ofp_generic_stats_body"]:
+    if kind in seen:
+      continue
+    seen.add(kind)
+    frag = {"k": kind, "f": _min_frag(kind)}
+    for c in _mut_candidates(kind, frag["f"]):
+      if c[0] != "set" or c[1]:
+        continue
+      for seed in (4, 1000003):
+        m = {"path": [], "kind": c[2], "field": c[3], "value": _mut_value(c[2], c[3], c[4], seed)}
+        yield M(frag, m)
+        if kind == "ofp_match":
+          yield M(frag, m, mode="flow_mod")
+  # 2. nested objects: every candidate of a set of rich containers
+  act_each = [{"k": k, "f": _min_frag(k)} for k in G.OF10_ACTION_KINDS]
+  nx_each = [{"k": k, "f": _min_frag(k)} for k in G.NX_ACTION_KINDS] if _NICIRA else []
+  m1 = {"in_port": 1, "dl_type": 0x0800, "nw_proto": 6, "tp_dst": 80, "nw_src": [0x0a000001, 24]}
+  props = [{"k": "ofp_queue_prop_min_rate", "f": {"rate": 10}}, {"k": "ofp_queue_prop_generic", "f": {"property": 9, "data": b"abcdef"}},
+           {"k": "ofp_queue_prop_none", "f": {}}]
+  rich = [
+    {"k": "ofp_flow_mod", "f": {"xid": 1, "match": m1, "actions": act_each}},
+    {"k": "ofp_flow_mod", "f": {"xid": 1}},
+    {"k": "ofp_packet_out", "f": {"xid": 1, "actions": act_each[::-1], "data": b"frame"}},
+    {"k": "ofp_flow_removed", "f": {"xid": 1, "match": m1}},
+    {"k": "ofp_port_status", "f": {"xid": 1, "desc": {"port_no": 3, "name": "eth3"}}},
+    {"k": "ofp_features_reply", "f": {"xid": 1, "ports": [{"port_no": 1}, {"port_no": 2, "name": "p2"}]}},
+    {"k": "ofp_packet_queue", "f": {"queue_id": 1, "properties": props}},
+    {"k": "ofp_queue_get_config_reply", "f": {"xid": 1, "queues": [{"queue_id": 1, "properties": props}, {"queue_id": 2, "properties": props[:1]}]}},
+    {"k": "ofp_stats_reply", "f": {"xid": 1, "body": [{"k": "ofp_flow_stats", "f": {"match": m1, "actions": act_each[:3]}},
+                                                     {"k": "ofp_flow_stats", "f": {"actions": act_each[3:6]}}]}},
+  ]
+  for bk in G.STATS_REQUEST_KINDS:
+    if bk != "ofp_generic_stats_body":
+      rich.append({"k": "ofp_stats_request", "f": {"xid": 1, "body": {"k": bk, "f": _min_frag(bk)}}})
+  rich.append({"k": "ofp_stats_request", "f": {"xid": 1, "type": 77, "body": {"k": "ofp_generic_stats_body", "f": {"data": b"ab"}}}})
+  for bk in G.STATS_REPLY_KINDS:
+    e = {"k": bk, "f": _min_frag(bk)}
+    t = R.stats_type_of(bk, True)
+    rich.append({"k": "ofp_stats_reply", "f": {"xid": 1, "body": [e, e] if R.stats_reply_is_array(t) else e}})
+  if _NICIRA:
+    ent = [{"field": "NXM_OF_ETH_TYPE", "value": b"\x08\x00", "mask": None},
+           {"field": "NXM_OF_IP_SRC", "value": b"\x0a\0\0\0", "mask": b"\xff\0\0\0"}]
+    rich += [{"k": "nx_flow_mod", "f": {"xid": 1, "match": ent, "actions": nx_each + act_each[:2]}},
+             {"k": "ofp_flow_mod_table_id", "f": {"xid": 1, "match": m1, "actions": act_each[:2]}},
+             {"k": "nxt_packet_in", "f": {"xid": 1, "match": ent, "data": b"abc"}}]
+  for frag in rich:
+    for c in _mut_candidates(frag["k"], frag["f"]):
+      if c[0] == "set" and not c[1]:
+        continue                      # top level: done above
+      sel_seed = 7 + 13 * len(c[1])
+      if c[0] == "set":
+        yield M(frag, {"path": list(c[1]), "kind": c[2], "field": c[3], "value": _mut_value(c[2], c[3], c[4], sel_seed)})
+  # 3. every NXM field, every way of rewriting an entry that is already there
+  if _NICIRA:
+    for name in sorted(R.NXM_FIELDS):
+      n, maskable = R.NXM_FIELDS[name][2], R.NXM_FIELDS[name][3]
+      first = {"field": "NXM_OF_IN_PORT", "value": b"\0\1", "mask": None}
+      variants = [{"field": name, "value": bytes(range(1, n + 1)), "mask": None}]
+      if maskable:
+        mk = b"\xff" + b"\x0f" * (n - 1) if name != "NXM_NX_TCP_FLAGS" else b"\x0f\xff"
+        variants.append({"field": name, "value": bytes(x & y for x, y in zip(bytes(range(1, n + 1)), mk)), "mask": mk})
+      for e in variants:
+        entries = [e] if name == "NXM_OF_IN_PORT" else [first, e]
+        idx = len(entries) - 1
+        hows = {}
+        for seed in range(0, 40):
+          how, v, m = _mut_nxm(e, seed)
+          hows.setdefault(how, (v, m))
+        for how, (v, m) in sorted(hows.items()):
+          mut = {"path": [], "kind": "nx_match", "index": idx, "how": how, "value": v, "mask": m}
+          yield M({"k": "nx_match", "f": {"entries": entries}}, mut)
+          mut2 = dict(mut, path=["match"])
+          yield M({"k": "nx_flow_mod", "f": {"xid": 1, "match": entries, "actions": act_each[:1]}}, mut2)
+          yield M({"k": "nxt_packet_in", "f": {"xid": 1, "match": entries, "data": b"payload"}}, mut2)
+  # the opt-in raw collection of vendor messages, and the tuple form of a list body
+  for d in (b"", b"abcd", b"x" * 21):
+    yield {"frag": {"k": "ofp_vendor_generic", "f": {"xid": 3, "vendor": 9, "data": d}}, "collect_raw": True, "pre": _PRE}
+  ps = lambda p: {"k": "ofp_port_stats", "f": {"port_no": p}}
+  for n in (0, 1, 2, 5):
+    yield _case({"k": "ofp_stats_reply", "f": {"xid": 1, "type": 4, "body": [ps(i) for i in range(n)], "$form": "tuple-body"}})
+
+
 def enum_constants(tier):
   for name in sorted(R.SPEC_CONSTANTS):
     yield {"const": name}
 
 
 def _all_enum(tier):
-  for g in (enum_constants, enum_grid, enum_match, enum_limits, enum_change, enum_pairs) + ((enum_nicira,) if _NICIRA else ()):
+  for g in (enum_constants, enum_grid, enum_match, enum_limits, enum_change, enum_pairs, enum_mutate) + ((enum_nicira,) if _NICIRA else ()):
     for c in g(tier):
       yield c
 
@@ -1397,6 +1757,35 @@ def _strategy_pairs(tier):
   return st.sampled_from(names).flatmap(lambda k: two(table[k]()))
 
 
+def _strategy_mutations(tier):
+  """a generated object plus one in-place change of it, chosen among all its scalar fields / nested objects / NXM entries"""
+  msg = G.message("any", safe=False, max_list=4)
+  part = st.sampled_from(["act", "rep", "req", "queue", "port", "match"]).flatmap({
+      "act": G.action(aligned=False), "rep": st.sampled_from(G.STATS_REPLY_KINDS).flatmap(lambda k: G.stats_reply_entry(k, aligned=False)),
+      "req": G.stats_request_body(safe=False, generic=True),
+      "queue": G.packet_queue(safe=False).map(lambda f: {"k": "ofp_packet_queue", "f": f}),
+      "port": G.phy_port().map(lambda f: {"k": "ofp_phy_port", "f": f}),
+      "match": G.match(consistent=True).map(lambda f: {"k": "ofp_match", "f": f})}.get)
+  table = {"msg": msg, "part": part}
+  names = ["msg"] * 5 + ["part"] * 2
+  if _NICIRA:
+    table.update({"nxmsg": G.nx_message(kinds=["nx_flow_mod", "nxt_packet_in", "nx_flow_mod", "ofp_flow_mod_table_id", "nx_async_config"]),
+                  "nxact": G.nx_action(),
+                  "nxmatch": G.nx_match_entries().map(lambda e: {"k": "nx_match", "f": {"entries": e}})})
+    names += ["nxmsg"] * 4 + ["nxact", "nxmatch", "nxmatch"]
+
+  def mk(t):
+    frag, sel, seed, fm = t
+    mut = _derive_mutation(frag, sel, seed)
+    if mut is None:
+      return {"frag": frag, "pre": b"", "trail": b""}
+    c = {"frag": frag, "mutate": mut}
+    if frag["k"] == "ofp_match" and fm:
+      c["mode"] = "flow_mod"
+    return c
+  return st.tuples(st.sampled_from(names).flatmap(table.get), st.integers(0, 1 << 16), st.integers(0, 1 << 40), st.booleans()).map(mk)
+
+
 def plan(tier):
   # thorough: 50 x the quick volume, with longer lists (C01_THOROUGH_SCALE overrides the factor while developing)
   k = 1 if tier == "quick" else int(os.environ.get("C01_THOROUGH_SCALE", "50"))
@@ -1410,4 +1799,5 @@ def plan(tier):
   if _NICIRA:
     drivers.append(Hyp("generated-nicira", lambda: _strategy_nx(tier), examples=1700 * k, shards=sh))
   drivers.append(Hyp("generated-pairs", lambda: _strategy_pairs(tier), examples=1200 * k, shards=sh))
+  drivers.append(Hyp("generated-mutations", lambda: _strategy_mutations(tier), examples=1500 * k, shards=sh))
   return drivers
